@@ -15,7 +15,8 @@ CONSTANT ProgressRestored   \* into_outcome is total even when a step failed aft
 
 Undecodable == {"Garbage", "Oversize", "Partial"}
 \* "...BadId": a decodable message whose record identifiers are shorter than namespace + author
-Inits == {"InitOk", "InitUnknown", "InitBadId"}
+\* "InitItems": an opening message that already carries entries (a decline must still leave the store alone)
+Inits == {"InitOk", "InitItems", "InitUnknown", "InitBadId"}
 Syncs == {"SyncValid", "SyncArb", "SyncBadId"}
 Malformed == {"InitBadId", "SyncBadId"}
 Terminal == {"ok", "err", "abort"}
